@@ -297,6 +297,8 @@ package store
 // started the split is reported as failed, so the last thing asked of the catalog must be
 // to put the parent back exactly as it was found (same id, version and end key) -
 // otherwise [splitKey, oldEnd) is covered by no live region after a failed split.
+// The child must take over exactly the parent's tail - end where the parent ended - under
+// an id of its own (defect repaired: both were taken from the caller unchecked).
 // buildChildPeerConfig and StartPeer are trusted leaves (StartPeer registers the child
 // through regionManager.updateRegion, not through Store.UpdateRegion, so it does not
 // touch the update ghosts).
@@ -309,6 +311,9 @@ package store
 //@ func (*Store).SplitRegion
 //@   property C24
 //@   exit [split-key-strictly-inside] result1 == nil ==> bcmp(parentMeta.StartKey, childMeta.StartKey) < 0 && (len(parentMeta.EndKey) == 0 || bcmp(childMeta.StartKey, parentMeta.EndKey) < 0)
+//@   exit [child-takes-over-exactly-the-tail] result1 == nil ==> bs(childMeta.EndKey) == bs(parentMeta.EndKey)
+//@   exit [child-has-its-own-id] result1 == nil ==> childMeta.ID != parentID
+//@   exit [refused-split-touches-nothing] result1 != nil && (childMeta.ID == parentID || bs(childMeta.EndKey) != bs(parentMeta.EndKey)) ==> updAttempts == old(updAttempts)
 //@   exit [parent-shrunk-to-split-key] result1 == nil ==> regionUpdates == old(regionUpdates) + 1 && lastUpdID == parentMeta.ID && lastUpdVersion == parentMeta.Epoch.Version + 1 && lastUpdStart == bs(parentMeta.StartKey) && lastUpdEnd == bs(childMeta.StartKey)
 //@   exit [failed-split-puts-the-parent-back] result1 != nil && regionUpdates > old(regionUpdates) ==> updAttempts >= old(updAttempts) + 2 && lastTryID == parentMeta.ID && lastTryVersion == parentMeta.Epoch.Version && lastTryEnd == bs(parentMeta.EndKey)
 //@   ensures [at-most-one-shrink] regionUpdates <= old(regionUpdates) + 2
